@@ -113,6 +113,14 @@ T_G2 == { G("H", <<QI("q", 0)>>), G("H", <<QI("q", 2)>>), G("S", <<QI("q", 2)>>)
           G("CCX", <<QI("q", 1), QI("q", 2), QI("q", 0)>>), G("CR", <<QI("q", 0), QI("q", 2), Let("k")>>),
           G("R", <<QI("r", 0), I3>>) }
 O_G2 == { OSub(I1) }
+\* other register sizes: one qubit; four qubits (gates on the highest qubit and across the whole register; a program
+\* has a single fundamental register, JaqalParse!TwoRegisters)
+H_G1 == { Hdr(<<>>, <<DReg("q", I1)>>, <<>>, ExactGates) }
+T_G1 == { G("X", <<QI("q", 0)>>), G("H", <<QI("q", 0)>>), G("S", <<QI("q", 0)>>), G("R", <<QI("q", 0), I3>>), G("I_X", <<QI("q", 0)>>) }
+H_G4 == { Hdr(<<>>, <<DReg("q", NumI(4)), DSlice("r", "q", I1, NumI(4), I2)>>, <<>>, ExactGates) }      \* r = q[1], q[3]
+T_G4 == { G("X", <<QI("q", 3)>>), G("H", <<QI("q", 3)>>), G("H", <<QI("q", 0)>>), G("CX", <<QI("q", 3), QI("q", 0)>>),
+          G("CX", <<QI("q", 2), QI("q", 3)>>), G("SW", <<QI("q", 1), QI("q", 3)>>), G("CCX", <<QI("q", 0), QI("q", 3), QI("q", 2)>>),
+          G("CR", <<QI("r", 1), QI("r", 0), I3>>), G("S", <<QI("q", 2)>>) }
 
 \* ---------------------------------------------------------------- execution: parallel blocks (C13)
 H_P == { Hdr(<<>>, <<DReg("q", I3), DSlice("r", "q", I1, I3, None)>>, <<>>, ExactGates),
